@@ -690,6 +690,67 @@ theorem attr_conflict_names_injective (A N0 : List String) (hA : ∀ a ∈ A, a 
       (hset _ (List.getElem_mem hi)) (hset _ (List.getElem_mem hj)) e
   · intro e; rw [e]
 
+/-- **`function_names_injective`** — the names `_translate_function` prints, both layers composed: in the exporter
+state in which the signature is printed (`funcState`: `_attr_renaming` reset, pre-pass over the used names done,
+attribute parameters registered), every sequence of renamer requests for values of the function — the inputs of the
+signature, the outputs and inputs of the body's nodes, the `return` — prints no attribute parameter's name, and
+prints the same Python name for two requests **iff** they are the same ONNX value; under `rename=False` (unique-name
+mapper + conflict layer) and under `rename=True` (short-name mapper + conflict layer), for every attribute list
+without duplicates and every start state whose tables are well formed (`Plain`, `TblInv`, duplicate-free short keys:
+true of the state `export()` starts from). -/
+theorem function_names_injective (o : Opts) (d : Nat) (f : FunctionP) (st0 : St)
+    (hp : Plain st0) (hT : TblInv st0.uniq) (hK : st0.shortKeys.Nodup)
+    (hattrs : f.attrs.Nodup) (hne : ∀ v ∈ f.usedOrder, v ≠ "")
+    (vs : List String) (hvs : ∀ v ∈ vs, v ∈ f.usedOrder) :
+    (translateVars o (funcState o d f st0) vs).1.length = vs.length
+    ∧ (∀ r ∈ (translateVars o (funcState o d f st0) vs).1, r ∉ f.attrs)
+    ∧ ∀ i j (hi : i < vs.length) (hj : j < vs.length),
+        ((translateVars o (funcState o d f st0) vs).1[i]? = (translateVars o (funcState o d f st0) vs).1[j]?
+          ↔ vs[i] = vs[j]) :=
+  function_names_injective_aux o d f st0 hp hT hK hattrs hne vs hvs
+
+/-- the state `export()` starts a FunctionProto from (`exportFunction`): the unique-name mapper seeded with the
+reserved module-level names -/
+def fnStart (f : FunctionP) : St := { uniq := reservedTable (reservedNames [] [f.opsets] [f.domain]) }
+
+/-- `exportFunction` is `_translate_function` run from `fnStart` -/
+theorem exportFunction_from_start (o : Opts) (d : Nat) (f : FunctionP) :
+    exportFunction o d f = (translateFunction o d f (fnStart f)).map (·.1) := rfl
+
+section
+attribute [local irreducible] OV.C13.reservedNames
+/-- … `function_names_injective` instantiated at that state: the only side condition left is the checked `reservedOk`. -/
+theorem exportFunction_names_injective (o : Opts) (d : Nat) (f : FunctionP)
+    (hres : reservedOk (reservedNames [] [f.opsets] [f.domain]) = true)
+    (hattrs : f.attrs.Nodup) (hne : ∀ v ∈ f.usedOrder, v ≠ "")
+    (vs : List String) (hvs : ∀ v ∈ vs, v ∈ f.usedOrder) :
+    (translateVars o (funcState o d f (fnStart f)) vs).1.length = vs.length
+    ∧ (∀ r ∈ (translateVars o (funcState o d f (fnStart f)) vs).1, r ∉ f.attrs)
+    ∧ ∀ i j (hi : i < vs.length) (hj : j < vs.length),
+        ((translateVars o (funcState o d f (fnStart f)) vs).1[i]? =
+            (translateVars o (funcState o d f (fnStart f)) vs).1[j]? ↔ vs[i] = vs[j]) := by
+  have hp : Plain (fnStart f) := ⟨rfl, fun _ => rfl, rfl, rfl⟩
+  have hT : TblInv (fnStart f).uniq := by
+    have h := (tblInv_reserved (reservedNames_nodup [] [f.opsets] [f.domain]) hres).1
+    unfold fnStart
+    exact h
+  have hK : (fnStart f).shortKeys.Nodup := List.nodup_nil
+  exact function_names_injective o d f (fnStart f) hp hT hK hattrs hne vs hvs
+end
+
+/-- non-vacuity (the C13-3 scenario through the whole function set-up): attribute `alpha`, values `alpha`, `alpha_0`,
+`X`, `a.b`, `a_b` — both modes -/
+example :
+    (translateVars ⟨false, false, false, false⟩
+      (funcState ⟨false, false, false, false⟩ 2
+        ⟨"f", "this", ["X"], ["alpha_0"], ["alpha"], ["X", "a.b", "a_b", "alpha", "alpha_0"], [("", 18)], []⟩ {})
+      ["alpha", "alpha_0", "X", "a.b", "a_b", "alpha"]).1 = ["alpha_1", "alpha_0", "X", "a_b", "a_b_1", "alpha_1"]
+    ∧ (translateVars ⟨true, false, false, false⟩
+      (funcState ⟨true, false, false, false⟩ 2
+        ⟨"f", "this", ["X"], ["y"], ["v2"], ["X", "t", "y"], [("", 18)], []⟩ {})
+      ["t", "X", "y", "t"]).1 = ["v2_0", "v1", "v3", "v2_0"] := by
+  decide
+
 /-- the scenario of C13-3: attribute `alpha`, values with base names `alpha`, `alpha_0`, `X` -/
 example : (conflictRun (["alpha"].map (·, none)) ["alpha", "alpha", "alpha_0", "X"] ["alpha", "alpha_0", "X", "alpha"]).1
     = ["alpha_1", "alpha_0", "X", "alpha_1"] := by decide
